@@ -51,9 +51,11 @@ def main(argv=None) -> int:
     chk = Check(pid, a.tier, seed)
     try:
         if a.replay:
+            from .common import WORK
+            chk.evid_dir = WORK / "evidence-replay"
             rec = json.load(open(a.replay))
             if hasattr(mod, "replay"):
-                mod.replay(chk, rec)
+                mod.replay(chk, rec, pid) if pid in POP else mod.replay(chk, rec)
             else:
                 print(f"replaying by re-running the {a.tier} check; recorded key: {rec.get('key')}")
                 (mod.main_for(chk, pid) if pid in POP | INST else mod.main(chk))
